@@ -149,3 +149,25 @@ pub fn write_model_with_weights(
     );
     Ok(out)
 }
+
+/// The bigram weight table of `model` as `(left feature string, right feature string, weight index)`,
+/// with `""` for a feature id without a string (BOS/EOS), in the orientation of `bigram.cost`.
+pub fn bigram_weight_table(model: &super::Model) -> Vec<(String, String, usize)> {
+    let fe = &model.data.config.feature_extractor;
+    let name = |m: &hashbrown::HashMap<String, std::num::NonZeroU32>, id: u32| {
+        m.iter()
+            .find(|(_, v)| v.get() == id)
+            .map_or(String::new(), |(k, _)| k.clone())
+    };
+    let mut out = vec![];
+    for (left, hm) in model.data.raw_model.bigram_weight_indices().iter().enumerate() {
+        for (&right, &widx) in hm {
+            out.push((
+                name(&fe.left_feature_ids, left as u32),
+                name(&fe.right_feature_ids, right),
+                widx as usize,
+            ));
+        }
+    }
+    out
+}
